@@ -11,7 +11,7 @@ cd "$SNAP" || exit 3
 /venv/bin/python tools/try_refactors.py /verif/refactors > /tmp/reg_refactors.log 2>&1
 /venv/bin/python tools/try_private_renames.py > /tmp/reg_renames.log 2>&1
 tools/check_fix_reverts.sh > /tmp/reg_reverts.log 2>&1
-for t in ${@:-r1 r2 r3 r4 r5 r6 r7 r8 r9 r10}; do
+for t in ${@:-r1 r2 r3 r4 r5 r6 r7 r8 r9 r10 r11}; do
   n=${t#r}; d=/tmp/mut$n/out; tag=$t
   [ "$t" = r1 ] && { d=/tmp/mut/out; tag=""; }
   [ -d "$d" ] && SEED_REUSE=1 SEED_TAG=$tag /venv/bin/python tools/seed_mutants.py $d > /tmp/reg_seed_$t.log 2>&1
